@@ -174,17 +174,8 @@ func cmdCheck(args []string) int {
 		}
 		// on a machine that is busier than it has cores (several checks started at once) solver time stretches: the
 		// budget stretches with it (up to four times), so that load alone does not turn into timeouts
-		if b, err := os.ReadFile("/proc/loadavg"); err == nil {
-			if f := strings.Fields(string(b)); len(f) > 0 {
-				if load, err := strconv.ParseFloat(f[0], 64); err == nil {
-					if k := load / float64(runtime.NumCPU()); k > 1 {
-						if k > 4 {
-							k = 4
-						}
-						to = int(float64(to) * k)
-					}
-				}
-			}
+		if k := loadFactor(); k > 1 {
+			to = int(float64(to) * k)
 		}
 	}
 	// one directory per run (two runs of the same property may overlap); directories of finished runs are removed
@@ -489,16 +480,24 @@ func cmdCheck(args []string) int {
 			}
 		}
 		if !definite && len(again) > 0 && len(again) <= 8 {
+			// the second attempt runs two at a time and its budget follows the load of the machine as it is now
+			budget := to * 6
+			if k := loadFactor(); k > 1 {
+				budget = int(float64(budget) * k)
+			}
+			rsem := make(chan struct{}, 2)
 			var rwg sync.WaitGroup
 			for _, i := range again {
 				rwg.Add(1)
 				go func(i int) {
 					defer rwg.Done()
+					rsem <- struct{}{}
+					defer func() { <-rsem }()
 					j := jobs[i]
 					first := j.o.Result.Seconds
 					var res *SolveResult
 					for _, f := range files[i] {
-						r := Solve(f, to*6, true, false)
+						r := Solve(f, budget, false, false)
 						if res == nil || (res.Status == "unsat" && r.Status != "unsat") {
 							res = r
 						}
@@ -1135,4 +1134,28 @@ func cmdParamNames(args []string) int {
 		}
 	}
 	return 0
+}
+
+// loadFactor: how many runnable processes per core the machine has right now (1-minute load average), between 1 and 4.
+func loadFactor() float64 {
+	b, err := os.ReadFile("/proc/loadavg")
+	if err != nil {
+		return 1
+	}
+	f := strings.Fields(string(b))
+	if len(f) == 0 {
+		return 1
+	}
+	load, err := strconv.ParseFloat(f[0], 64)
+	if err != nil {
+		return 1
+	}
+	k := load / float64(runtime.NumCPU())
+	if k < 1 {
+		return 1
+	}
+	if k > 4 {
+		return 4
+	}
+	return k
 }
